@@ -26,6 +26,53 @@ type c18Run struct {
 	tr      *verifh.T
 	noticed map[*dispatch.Dispatcher]bool
 	errcs   []chan error
+	sttl    int64
+	lttl    int64
+	// monitor state (the same predicates as the Lean driver's monitor; evaluated here as well
+	// because the driver stops following a case at the first model/code difference)
+	prev   [c18NTor]c18Status
+	serves [c18NTor][]int64
+	writes [c18NTor][]int64
+}
+
+type c18Status struct{ p, c, dl, ca bool }
+
+// check evaluates the property's predicates on the status change of torrent i caused by op.
+func (r *c18Run) check(i int, op []string, cur c18Status) {
+	old := r.prev[i]
+	r.prev[i] = cur
+	now := r.w.now()
+	kind := op[1]
+	dropped := old.p && !cur.p
+	where := fmt.Sprintf("h%d@t=%d", i, now)
+	if dropped && kind == "tick" && old.c {
+		for _, t := range r.serves[i] {
+			if now < t+r.sttl {
+				r.tr.PropFail("seeder-dropped-while-serving", where, fmt.Sprintf("served-at=%d", t), fmt.Sprintf("limit=%d", r.sttl))
+				break
+			}
+		}
+		if old.ca && !cur.ca {
+			r.tr.PropFail("idle-drop-deleted-blob", where)
+		}
+	}
+	if dropped && kind == "tick" && !old.c {
+		for _, t := range r.writes[i] {
+			if now < t+r.lttl {
+				r.tr.PropFail("leecher-dropped-while-receiving", where, fmt.Sprintf("received-at=%d", t), fmt.Sprintf("limit=%d", r.lttl))
+				break
+			}
+		}
+	}
+	if dropped && (kind == "tick" || kind == "rm") && !old.c && cur.dl {
+		r.tr.PropFail("partial-file-left", where)
+	}
+	if dropped && kind != "tick" && kind != "rm" {
+		r.tr.PropFail("dropped-without-timeout", where, verifh.Str(strings.Join(op[1:], " ")))
+	}
+	if old.ca && !cur.ca && kind != "rm" && !(dropped && kind == "tick" && old.c) {
+		r.tr.PropFail("cached-blob-deleted", where, verifh.Str(strings.Join(op[1:], " ")))
+	}
 }
 
 func c18Tor(tok string) (int, bool) {
@@ -50,19 +97,22 @@ func c18Piece(tok string) (int, bool) {
 	return i, true
 }
 
-func (r *c18Run) status() {
+func (r *c18Run) status(op []string) {
 	w := r.w
 	for i := 0; i < c18NTor; i++ {
 		ctrl := w.ctrl(i)
 		obs := []string{"p=0", "c=-", "lr=-", "lw=-"}
+		cur := c18Status{dl: w.exists(w.cads.Download(), i), ca: w.exists(w.cads.Cache(), i)}
 		if ctrl != nil {
 			d := ctrl.dispatcher
+			cur.p, cur.c = true, d.Complete()
 			obs = []string{"p=1", "c=" + verifh.Bool(d.Complete()),
-				fmt.Sprintf("lr=%d", d.LastReadTime().Sub(vEpoch).Nanoseconds()),
-				fmt.Sprintf("lw=%d", d.LastWriteTime().Sub(vEpoch).Nanoseconds())}
+				fmt.Sprintf("lr=%d", w.ns(d.LastReadTime())),
+				fmt.Sprintf("lw=%d", w.ns(d.LastWriteTime()))}
 		}
-		obs = append(obs, "dl="+verifh.Bool(w.exists(w.cads.Download(), i)), "ca="+verifh.Bool(w.exists(w.cads.Cache(), i)))
+		obs = append(obs, "dl="+verifh.Bool(cur.dl), "ca="+verifh.Bool(cur.ca))
 		r.tr.Rec("st", []string{fmt.Sprintf("h%d", i)}, obs)
+		r.check(i, op, cur)
 	}
 }
 
@@ -75,7 +125,7 @@ func (r *c18Run) settle() {
 		if ctrl == nil || !ctrl.dispatcher.Complete() || r.noticed[ctrl.dispatcher] {
 			continue
 		}
-		e, ok := w.takeCompletion(i, 5*time.Second)
+		e, ok := w.takeCompletion(ctrl.dispatcher, 5*time.Second)
 		if !ok {
 			panic("harness: completion notice did not arrive")
 		}
@@ -95,7 +145,7 @@ func (r *c18Run) do(op []string) bool {
 		if err != nil || n < 0 || n > 1000000 {
 			return false
 		}
-		w.clk.Add(time.Duration(n))
+		w.clk.advance(time.Duration(n))
 		r.tr.Op(op[1:])
 	case op[1] == "new" && len(op) == 4:
 		i, ok := c18Tor(op[2])
@@ -108,10 +158,13 @@ func (r *c18Run) do(op []string) bool {
 			r.tr.Op(op[1:], "createerr")
 			break
 		}
-		w.tors[i] = t
+		before := w.ctrl(i)
 		errc := make(chan error, 8)
 		r.errcs = append(r.errcs, errc)
 		newTorrentEvent{vNamespace, t, errc}.apply(w.st)
+		if w.ctrl(i) != before {
+			w.tors[i] = t // the new dispatcher wraps this torrent object
+		}
 		select {
 		case err := <-errc:
 			if err == nil {
@@ -132,6 +185,9 @@ func (r *c18Run) do(op []string) bool {
 			w.tors[i].setFailClose(op[4] == "closefail")
 		}
 		res := w.servePiece(i, pi, op[4] != "noread")
+		if res == "sent" && op[4] != "closefail" {
+			r.serves[i] = append(r.serves[i], w.now())
+		}
 		if w.tors[i] != nil {
 			w.tors[i].setFailClose(false)
 		}
@@ -142,7 +198,11 @@ func (r *c18Run) do(op []string) bool {
 		if !ok || !ok2 || (op[4] != "good" && op[4] != "bad") {
 			return false
 		}
-		r.tr.Op(op[1:], w.deliverPiece(i, pi, op[4] == "good"))
+		res := w.deliverPiece(i, pi, op[4] == "good")
+		if res == "ok" {
+			r.writes[i] = append(r.writes[i], w.now())
+		}
+		r.tr.Op(op[1:], res)
 	case op[1] == "tick" && len(op) == 2:
 		preemptionTickEvent{}.apply(w.st)
 		r.tr.Op(op[1:])
@@ -162,7 +222,7 @@ func (r *c18Run) do(op []string) bool {
 		return false
 	}
 	r.settle()
-	r.status()
+	r.status(op)
 	return true
 }
 
@@ -189,9 +249,8 @@ func c18Exec(tr *verifh.T, c verifh.Case) {
 	if sttl < 1 || lttl < 1 || np < 1 || np > 8 {
 		return
 	}
-	w := newVWorld(time.Duration(sttl), time.Duration(lttl), np, c18NTor)
-	defer w.close()
-	r := &c18Run{w: w, tr: tr, noticed: map[*dispatch.Dispatcher]bool{}}
+	w := vWorldFor(time.Duration(sttl), time.Duration(lttl), np, c18NTor)
+	r := &c18Run{w: w, tr: tr, noticed: map[*dispatch.Dispatcher]bool{}, sttl: sttl, lttl: lttl}
 	tr.Cfg(fmt.Sprintf("sttl=%d", sttl), fmt.Sprintf("lttl=%d", lttl), fmt.Sprintf("np=%d", np))
 	for _, op := range c.Ops {
 		op := op
@@ -210,6 +269,7 @@ func c18Cfg(sttl, lttl, np int) []string {
 func TestVerif_C18(t *testing.T) {
 	tr := verifh.Open(c18Machine)
 	defer tr.Close()
+	defer vCloseWorlds()
 	cases, replayOnly := verifh.InputCases(c18Machine)
 	for _, c := range cases {
 		c18Exec(tr, c)
@@ -272,7 +332,7 @@ func TestVerif_C18(t *testing.T) {
 	}
 	// (c) random long timelines over two torrents
 	rnd := verifh.NewRand(verifh.Seed(), "c18")
-	for n := 0; n < verifh.Scale(400, 20000); n++ {
+	for n := 0; n < verifh.Scale(300, 20000); n++ {
 		sttl, lttl, np := 1+rnd.Intn(9), 1+rnd.Intn(9), 1+rnd.Intn(3)
 		var ops [][]string
 		steps := 5 + rnd.Intn(40)
